@@ -127,6 +127,23 @@ impl DataLog {
             })
     }
 
+    /// A re-subscription changes the QoS a parked data request is served with
+    pub fn update_waiter_qos(
+        &mut self,
+        id: ConnectionId,
+        filter_idx: FilterIdx,
+        filter: &Filter,
+        qos: u8,
+    ) {
+        if let Some(data) = self.native.get_mut(filter_idx) {
+            for (conn_id, request) in data.waiters.get_mut().iter_mut() {
+                if *conn_id == id && request.filter == *filter {
+                    request.qos = qos;
+                }
+            }
+        }
+    }
+
     // TODO: Currently returning a Option<Vec> instead of Option<&Vec> due to Rust borrow checker
     // limitation
     pub fn matches(&mut self, topic: &str) -> Option<Vec<usize>> {
